@@ -10,6 +10,7 @@ func All() map[string]core.Prop {
 		"C03": C03{},
 		"C04": C04{},
 		"C05": C05{},
+		"C15": C15{},
 		"C17": C17{},
 	}
 }
